@@ -111,6 +111,68 @@ theorem build_refs_in_range (db : Db) (rb : Bp.RefBp) (r : Ref) (h : buildRef db
   subst h
   exact ⟨_, _, ht1, ht2, locateCols_in_range _ _ _ h2, locateCols_in_range _ _ _ h4⟩
 
+theorem mapM_spec {α β ε} (f : α → Except ε β) (R : α → β → Prop) (hf : ∀ a b, f a = .ok b → R a b) :
+    ∀ (l : List α) (r : List β), l.mapM f = .ok r →
+      r.length = l.length ∧ ∀ k (hk : k < r.length), ∃ a, l[k]? = some a ∧ R a r[k] := by
+  intro l
+  induction l with
+  | nil =>
+    intro r h
+    simp [List.mapM_nil, pure, Except.pure] at h
+    subst h
+    exact ⟨rfl, fun k hk => absurd hk (by simp)⟩
+  | cons x xs ih =>
+    intro r h
+    rw [List.mapM_cons] at h
+    cases hx : f x with
+    | error e => simp [hx, bind, Except.bind] at h
+    | ok y =>
+      cases hxs : xs.mapM f with
+      | error e => simp [hx, hxs, bind, Except.bind] at h
+      | ok ys =>
+        simp [hx, hxs, bind, Except.bind, pure, Except.pure] at h
+        subst h
+        obtain ⟨hl, hr⟩ := ih ys hxs
+        refine ⟨by simp [hl], ?_⟩
+        intro k hk
+        cases k with
+        | zero => exact ⟨x, by simp, by simpa using hf _ _ hx⟩
+        | succ k' =>
+          obtain ⟨a, h1, h2⟩ := hr k' (by simpa using hk)
+          exact ⟨a, by simpa using h1, by simpa using h2⟩
+
+/-- the columns a reference side is linked to carry exactly the names the document wrote (one per comma-separated
+    piece, in order), and each is the first column of the table with that name -/
+theorem locateCols_sound (t : Table) (cols : Str) (is : List Nat) (h : locateCols t cols = .ok is) :
+    is.length = (splitComma cols).length ∧
+    ∀ k (hk : k < is.length), ∃ piece c, (splitComma cols)[k]? = some piece ∧ t.columns[is[k]]? = some c
+      ∧ c.name = stripParenSpace piece
+      ∧ ∀ j, j < is[k] → ∀ c', t.columns[j]? = some c' → c'.name ≠ stripParenSpace piece := by
+  unfold locateCols at h
+  have key : ∀ (piece : Str) (i : Nat),
+      (match t.columns.findIdx? (fun x => x.name == stripParenSpace piece) with
+        | some i => (pure i : B Nat)
+        | none => (throw (PErr.lib "ColumnNotFoundError") : B Nat)) = .ok i →
+      ∃ c, t.columns[i]? = some c ∧ c.name = stripParenSpace piece
+        ∧ ∀ j, j < i → ∀ c', t.columns[j]? = some c' → c'.name ≠ stripParenSpace piece := by
+    intro piece i hpi
+    cases hf : t.columns.findIdx? (fun x => x.name == stripParenSpace piece) with
+    | none => simp [hf, throw, throwThe, MonadExceptOf.throw] at hpi
+    | some j =>
+      simp [hf, pure, Except.pure] at hpi
+      subst hpi
+      obtain ⟨hlt, hp, hbefore⟩ := List.findIdx?_eq_some_iff_getElem.mp hf
+      refine ⟨t.columns[j], List.getElem?_eq_getElem hlt, by simpa using hp, ?_⟩
+      intro k hk c' hc'
+      have hk' : k < t.columns.length := Nat.lt_trans hk hlt
+      rw [List.getElem?_eq_getElem hk'] at hc'
+      cases hc'
+      simpa using hbefore k hk
+  obtain ⟨hl, hk⟩ := mapM_spec _ _ key _ _ h
+  refine ⟨hl, fun k hk' => ?_⟩
+  obtain ⟨piece, hp, c, h1, h2, h3⟩ := hk k hk'
+  exact ⟨piece, c, hp, h1, h2, h3⟩
+
 /-- a column type is linked to an enum only when that enum carries exactly the schema and name the type
     text spells (`schema.name`, or bare = schema public), and to the first such enum -/
 theorem resolveType_sound (enums : List Enum) (ty : Str) (i : Nat) (h : resolveTypePure enums ty = .enum i) :
